@@ -16,8 +16,9 @@ use vcommon::*;
 
 enum Ended {
 	Done,
-	Hang(usize),
-	Died(usize, String, String),
+	/// (case index, post-decode step announced last - single-case runs only)
+	Hang(usize, String),
+	Died(usize, String, String, String),
 }
 
 struct ChildArgs {
@@ -64,6 +65,7 @@ fn supervise(mut child: Child, timeout: Duration) -> Ended {
 		s
 	});
 	let mut cur: usize = usize::MAX;
+	let mut step = String::new();
 	let mut done = false;
 	let ended;
 	loop {
@@ -71,6 +73,9 @@ fn supervise(mut child: Child, timeout: Duration) -> Ended {
 			Ok(l) => {
 				if let Some(n) = l.strip_prefix("B ") {
 					cur = n.trim().parse().unwrap_or(usize::MAX);
+					step.clear();
+				} else if let Some(n) = l.strip_prefix("S ") {
+					step = n.trim().to_string();
 				} else if l.trim() == "D" {
 					done = true;
 				}
@@ -78,7 +83,7 @@ fn supervise(mut child: Child, timeout: Duration) -> Ended {
 			Err(RecvTimeoutError::Timeout) => {
 				let _ = child.kill();
 				let _ = child.wait();
-				ended = Ended::Hang(cur);
+				ended = Ended::Hang(cur, step.clone());
 				break;
 			}
 			Err(RecvTimeoutError::Disconnected) => {
@@ -94,7 +99,16 @@ fn supervise(mut child: Child, timeout: Duration) -> Ended {
 					};
 					let _ = rt.join();
 					let err = et.join().unwrap_or_default();
-					return Ended::Died(cur, how, err);
+					// drain what the child still wrote before it died
+					while let Ok(l) = rx.try_recv() {
+						if let Some(n) = l.strip_prefix("B ") {
+							cur = n.trim().parse().unwrap_or(usize::MAX);
+							step.clear();
+						} else if let Some(n) = l.strip_prefix("S ") {
+							step = n.trim().to_string();
+						}
+					}
+					return Ended::Died(cur, how, err, step);
 				}
 				break;
 			}
@@ -175,8 +189,8 @@ pub fn run(args: &Args) -> i32 {
 					Ended::Done => break,
 					ended => {
 						let (idx, kind) = match &ended {
-							Ended::Hang(i) => (*i, "hang"),
-							Ended::Died(i, _, _) => (*i, "abort"),
+							Ended::Hang(i, _) => (*i, "hang"),
+							Ended::Died(i, _, _, _) => (*i, "abort"),
 							Ended::Done => unreachable!(),
 						};
 						stats.lock().unwrap().1 += 1;
@@ -194,12 +208,12 @@ pub fn run(args: &Args) -> i32 {
 						let case = read_ndjson(&sb).into_iter().next().unwrap_or(json!({"i": idx}));
 						let c = space.materialize(idx);
 						let confirmed_now = match (&again, kind) {
-							(Ended::Hang(_), "hang") => Some(("hang", String::new(), None)),
-							(Ended::Died(_, how, err), "abort") => Some(("abort", how.clone(), alloc_refused(err))),
+							(Ended::Hang(_, st), "hang") => Some(("hang", String::new(), None, st.clone())),
+							(Ended::Died(_, how, err, st), "abort") => Some(("abort", how.clone(), alloc_refused(err), st.clone())),
 							_ => None,
 						};
 						match confirmed_now {
-							Some((out, how, refused)) => {
+							Some((out, how, refused, step)) => {
 								{
 									let name = space.targets[c.target].name.to_string();
 									let mut cf = confirmed.lock().unwrap();
@@ -212,7 +226,7 @@ pub fn run(args: &Args) -> i32 {
 								let mut ev = extra_events.lock().unwrap();
 								ev.push(worker::begin_event(&space, idx, &c));
 								ev.push(json!({"k": "End", "i": idx, "out": out, "consumed": 0, "peak": worker::clamp(refused.unwrap_or(0)), "reads": 0,
-									"maxreq": worker::clamp(refused.unwrap_or(0)), "note": how, "alloc_refused": refused.map(|x| x.to_string()).unwrap_or_default(), "gen": c.origin["gen"]}));
+									"maxreq": worker::clamp(refused.unwrap_or(0)), "note": how, "alloc_refused": refused.map(|x| x.to_string()).unwrap_or_default(), "step": step, "gen": c.origin["gen"]}));
 								extra_bad.lock().unwrap().push(case);
 							}
 							None => {
@@ -242,6 +256,7 @@ pub fn run(args: &Args) -> i32 {
 	let keep = args.u64("keep", 8);
 	let mut dropped = 0u64;
 	let mut skipped = 0u64;
+	let mut step_counts: std::collections::BTreeMap<String, (u64, u64)> = std::collections::BTreeMap::new();
 	// abort / hang events recorded by this process come first so that they are never dropped as repeats
 	{
 		let evs = extra_events.lock().unwrap().clone();
@@ -249,7 +264,7 @@ pub fn run(args: &Args) -> i32 {
 		while let Some(b) = it.next() {
 			if b["k"] == "Begin" {
 				if let Some(e) = it.next() {
-					let key = format!("{}|{}|{}", b["dec"], e["out"], e["alloc_refused"].as_str().unwrap_or("").is_empty());
+					let key = format!("{}|{}|{}|{}", b["dec"], e["out"], e["alloc_refused"].as_str().unwrap_or("").is_empty(), e["step"]);
 					let n = kept.entry(key).or_insert(0u64);
 					*n += 1;
 					if *n <= keep {
@@ -306,6 +321,15 @@ pub fn run(args: &Args) -> i32 {
 							}
 						}
 					}
+					Some("Steps") => {
+						if let Some(m) = e["counts"].as_object() {
+							for (k, v) in m {
+								let t = step_counts.entry(k.clone()).or_insert((0u64, 0u64));
+								t.0 += v[0].as_u64().unwrap_or(0);
+								t.1 += v[1].as_u64().unwrap_or(0);
+							}
+						}
+					}
 					Some("Skipped") => skipped += e["n"].as_u64().unwrap_or(0),
 					Some("SeedsFailed") => seeds_failed.extend(e["list"].as_array().cloned().unwrap_or_default()),
 					Some("Begin") => pending = Some(e),
@@ -314,7 +338,7 @@ pub fn run(args: &Args) -> i32 {
 						// repetitions of the same observation (counted in `dropped_repeats`)
 						let b = pending.take().unwrap_or(json!({}));
 						let note: String = e["note"].as_str().unwrap_or("").chars().filter(|c| !c.is_ascii_digit()).take(70).collect();
-						let key = format!("{}|{}|{}|{}", b["dec"], e["out"], note, e["peak"].as_u64().unwrap_or(0) > 100_000);
+						let key = format!("{}|{}|{}|{}|{}", b["dec"], e["out"], note, e["peak"].as_u64().unwrap_or(0) > 100_000, e["step"]);
 						let n = kept.entry(key).or_insert(0u64);
 						*n += 1;
 						if *n <= keep {
@@ -352,13 +376,19 @@ pub fn run(args: &Args) -> i32 {
 	for (_, s) in sums {
 		out.put(&s);
 	}
+	// how often each post-decode step ran (and returned Ok): validated against the catalogue of the specification
+	let names: Vec<&String> = step_counts.keys().collect();
+	out.put(&json!({"k": "Steps", "names": names, "n": step_counts.values().map(|v| v.0).collect::<Vec<_>>(),
+		"ok": step_counts.values().map(|v| v.1).collect::<Vec<_>>()}));
+	nind += 1;
 	out.flush();
 	bad.flush();
 	let st = stats.lock().unwrap();
 	println!(
 		"{}",
 		json!({"cases": total, "ops": space.ops.len(), "seeds": space.seeds.len(), "children": st.0, "restarts": st.1, "unconfirmed": st.2,
-			"individual_events": nind, "nontrivial_calls": nontrivial_calls, "distinct_nontrivial": distinct_nontrivial, "dropped_repeats": dropped, "skipped_after_breaker": skipped, "breaker_decoders": skip.lock().unwrap().iter().cloned().collect::<Vec<_>>(), "summary_events": nsum, "seeds_failed": seeds_failed})
+			"individual_events": nind, "nontrivial_calls": nontrivial_calls, "distinct_nontrivial": distinct_nontrivial, "dropped_repeats": dropped, "skipped_after_breaker": skipped, "breaker_decoders": skip.lock().unwrap().iter().cloned().collect::<Vec<_>>(), "summary_events": nsum, "seeds_failed": seeds_failed,
+			"steps": step_counts.iter().map(|(k, v)| (k.clone(), json!([v.0, v.1]))).collect::<serde_json::Map<String, Value>>()})
 	);
 	0
 }
@@ -384,10 +414,15 @@ pub fn run_case_file(space: &Space, bounds: &Bounds, file: &str, out: &str) -> i
 	w.put(&worker::begin_event(space, idx, &c));
 	w.flush();
 	println!("B {}", idx);
+	{
+		use std::io::Write;
+		let _ = std::io::stdout().flush();
+	}
+	crate::steps::set_announce(true);
 	let o = worker::execute(space, &c);
 	let _ = bounds;
 	w.put(&json!({"k": "End", "i": idx, "out": o.out, "consumed": worker::clamp(o.res.consumed), "peak": worker::clamp(o.peak),
-		"reads": worker::clamp(o.res.reads), "maxreq": worker::clamp(o.maxreq), "note": o.note, "gen": c.origin["gen"]}));
+		"reads": worker::clamp(o.res.reads), "maxreq": worker::clamp(o.maxreq), "note": o.note, "step": o.step, "gen": c.origin["gen"]}));
 	w.flush();
 	println!("D");
 	0
